@@ -17,6 +17,7 @@ def opOf (j : Json) : Op :=
   | "reply" => .reply (jnat j "c") (jnat j "nonce") (jnat j "tx") (ansOf (jstr j "ans"))
   | "beginShutdown" => .beginShutdown
   | "drain" => .drain
+  | "abandon" => .abandon (jnat j "w")
   | _ => .observe (jnat j "w")
 
 def outcomeStr : Option Outcome → String
@@ -32,8 +33,10 @@ def handle (inp impl : Json) : CaseResult :=
   let fin := final init ops
   -- outcomes the model predicts for the external waiters, in registration order
   let watchOuts := ((ops.zip outs).filter (fun p => match p.1 with | .watch _ _ => true | _ => false)).map (·.2)
+  let abandoned := ops.filterMap (fun o => match o with | .abandon w => some w | _ => none)
   let expected := watchOuts.map (fun o => match o with
-    | .waiter id => outcomeStr ((fin.delivered.find? (fun d => d.1 = id)).map (·.2))
+    | .waiter id => if abandoned.contains id then "none"
+        else outcomeStr ((fin.delivered.find? (fun d => d.1 = id)).map (·.2))
     | .refused => "closed"
     | .lateCancelled => "cancelled"
     | .unknownTx => "unknown-tx"
